@@ -71,6 +71,42 @@ def h_decompose(c, n):
     c.output("branches", sorted(brs))
 
 
+def h_after_change(c, n, how):
+    """The decomposition describes the tree AS IT IS NOW: query branches/paths/tips once, then re-root / sort / re-parent in place,
+    and query the resulting tree again."""
+    from swcgeom.core import BranchTree, redirect_tree, sort_tree
+    from symv.trees import descendants
+
+    t, a = sym_tree(c, n, mode="any", extra=("w",))
+    pid = a["pid"]
+    _ = (t.get_branches(), t.get_paths(), t.get_tips(), t.get_furcations())
+    if how == "redirect":
+        k = c.choice("k", n)
+        t2 = redirect_tree(t, k, sort=c.pick("sort", [True, False]))
+    elif how == "sort":
+        t2 = sort_tree(t)
+    else:
+        k = 1 + c.choice("k", n - 1)
+        cands = [j for j in range(n) if j not in descendants(pid, k)]
+        t.node(k).pid = cands[c.choice("j", len(cands))]
+        t2 = t
+    pid2 = [int(v) for v in t2.pid()]
+    if pid2[0] != -1:
+        # (branches are defined from node 0 in this library; an unsorted re-rooting leaves the root elsewhere: paths/tips only)
+        ch = children_of(pid2)
+        c.prove("after_change.tips", sorted(int(x.id) for x in t2.get_tips()) == [i for i in range(n) if not ch[i]])
+        return
+    want = _expected_branches(pid2)
+    got = [[int(v) for v in b.origin_id()] for b in t2.get_branches()]
+    c.prove("after_change.branches", sorted(got) == sorted(want), f"{sorted(got)} vs {sorted(want)} for pid {pid2}")
+    ch = children_of(pid2)
+    c.prove("after_change.tips", sorted(int(x.id) for x in t2.get_tips()) == [i for i in range(n) if not ch[i]])
+    c.prove("after_change.furcations", sorted(int(x.id) for x in t2.get_furcations()) == [i for i in range(n) if len(ch[i]) > 1])
+    bt = BranchTree.from_tree(t2)
+    c.prove("after_change.branch_tree_size", bt.number_of_nodes() == len({0} | {i for i in range(n) if len(ch[i]) != 1}), f"{bt.number_of_nodes()}")
+    c.reachable("topology_changed", pid2 != pid)
+
+
 def h_branch_tree(c, n, via):
     from swcgeom.core import BranchTree
     from swcgeom.transforms import ToBranchTree
@@ -146,8 +182,10 @@ def h_longest_path(c, n, detach):
     c.output("len", got_len)
 
 
-REACH = {"decompose": ["root_one_child", "has_furcation"]}
+REACH = {"after_change": ["topology_changed"], "decompose": ["root_one_child", "has_furcation"]}
 HARNESSES = [
+    H("after_change", h_after_change, quick=[dict(n=k, how=h) for k in (3, 4) for h in ("redirect", "sort", "setter")], thorough=[dict(n=5, how=h) for h in ("redirect", "sort", "setter")], functions=FUNCTIONS,
+      bounds="every tree with n<=4/5 nodes, queried, then re-rooted at every node (sorted or not) / sorted / one node re-parented through its handle, then queried again"),
     H("decompose", h_decompose, quick=[dict(n=k) for k in (1, 2, 3, 4, 5)], thorough=[dict(n=6)], functions=FUNCTIONS, bounds="every parent table with root 0 on n<=5 (quick)/6 (thorough) nodes"),
     H("branch_tree", h_branch_tree, quick=[dict(n=k, via=v) for k in (1, 2, 3, 4) for v in ("from_tree",)] + [dict(n=5, via="from_tree"), dict(n=4, via="transform")],
       thorough=[dict(n=6, via="from_tree"), dict(n=5, via="transform")], functions=FUNCTIONS, bounds="every parent table with root 0 on n<=5/6 nodes; attributes symbolic reals"),
